@@ -228,6 +228,35 @@ def rule_copy_complete(ctx):
             r.bad(Finding("circuit-copy-complete", "CircuitBase.copy", f"container `{attr}` is shared with the original (bare alias)", where=where, operand=attr))
         else:
             r.ok(f"CircuitBase.copy[{attr}]", nontrivial=False)
+    # option dicts that carry nested mutable per-object state (e.g. gate_opts["info"], the canonical-form record of the MPS
+    # simulators) must be copied deeply: a shallow copy makes the original and every copy update one shared record
+    nested = {}
+    for c in classes:
+        ini = c.methods.get("__init__")
+        if ini is None or ini.cls is not c or ini.is_alias:
+            continue
+        for x in ast.walk(ini.node):
+            if isinstance(x, ast.Call) and isinstance(x.func, ast.Attribute) and x.func.attr == "setdefault" and len(x.args) == 2 \
+                    and isinstance(x.args[1], (ast.Dict, ast.List, ast.Set)) and src_of(x.func.value).split(".")[-1] in a_copy:
+                nested.setdefault(src_of(x.func.value).split(".")[-1], []).append((c.name, const_value(x.args[0], "?")))
+            if isinstance(x, ast.Assign) and isinstance(x.targets[0], ast.Subscript) and isinstance(x.value, (ast.Dict, ast.List, ast.Set)) \
+                    and src_of(x.targets[0].value).split(".")[-1] in a_copy:
+                nested.setdefault(src_of(x.targets[0].value).split(".")[-1], []).append((c.name, const_value(x.targets[0].slice, "?")))
+    for attr, users in sorted(nested.items()):
+        val = a_copy[attr]
+        deep = False
+        if isinstance(val, ast.Call):
+            fn = (dotted(val.func) or "").split(".")[-1]
+            deep = fn in ("tree_map", "deepcopy", "tree_copy")
+        if isinstance(val, ast.DictComp) and isinstance(val.value, ast.Call):
+            deep = True
+        if deep:
+            r.ok(f"CircuitBase.copy[{attr} deep]", sample={"attribute": attr, "nested mutable entries": [f"{c}: {k!r}" for c, k in users], "copied with": src_of(val)[:50]})
+        else:
+            r.bad(Finding("circuit-copy-complete", "CircuitBase.copy",
+                          f"`{attr}` is copied with `{src_of(val)[:50]}` (shallow) although {users[0][0]}.__init__ stores the mutable entry {users[0][1]!r} in it: "
+                          "the original and its copies then share that entry (for the MPS simulators the canonical-form record), while each has its own state",
+                          where=where, operand=f"{attr}:shallow"))
     for c in classes[1:]:
         m = c.methods.get("copy")
         if m is not None and m.cls is c and not m.is_alias:
